@@ -368,6 +368,18 @@ func TestC12_Grid(t *testing.T) {
 			}
 		}
 	}
+	// unlimited tries watched for 30 doublings (a microsecond-scale timeout: virtual time is free) — every wait is
+	// double the previous one, the 20th like the 2nd
+	for _, v6 := range []bool{false, true} {
+		for _, tn := range []int64{62, 1000, 1e6} {
+			sc := c12Scenario(v6, tn, -1, 1, -1, 0)
+			sc.Window = 30
+			if tn >= 1e6 {
+				sc.Window = 24
+			}
+			c12.one(t, sc)
+		}
+	}
 	// every combination of request features (client address, server identifier, broadcast flag, requested address,
 	// relay address, client identifier / v6: server id, IA, elapsed time, type, size) × every destination
 	for _, v6 := range []bool{false, true} {
